@@ -1,4 +1,4 @@
-from asyncio import Task, ensure_future, gather
+from asyncio import CancelledError, Future, Task, ensure_future, gather, shield
 from collections.abc import Iterable
 from contextlib import AbstractAsyncContextManager
 from itertools import chain
@@ -45,6 +45,17 @@ class Disposables:
                 # consume it here - producing the state is a part of initializing
                 return tuple(multiple)
 
+    async def _dispose(
+        self,
+        disposable: Disposable,
+        /,
+        exc_type: type[BaseException] | None,
+        exc_val: BaseException | None,
+        exc_tb: TracebackType | None,
+    ) -> bool | None:
+        # a failure of a single disposable (also when not awaited yet) does not affect the others
+        return await disposable.__aexit__(exc_type, exc_val, exc_tb)
+
     async def __aenter__(self) -> Iterable[State]:
         initializing: list[Task[Iterable[State]]] = [
             ensure_future(self._initialize(disposable)) for disposable in self._disposables
@@ -61,7 +72,7 @@ class Disposables:
             # wait for interrupted ones and dispose what was already initialized
             await gather(
                 *[
-                    disposable.__aexit__(type(exc), exc, exc.__traceback__)
+                    self._dispose(disposable, type(exc), exc, exc.__traceback__)
                     for disposable, res in zip(
                         self._disposables,
                         await gather(*initializing, return_exceptions=True),
@@ -85,7 +96,7 @@ class Disposables:
                 res
                 for res in await gather(
                     *[
-                        disposable.__aexit__(type(error), error, error.__traceback__)
+                        self._dispose(disposable, type(error), error, error.__traceback__)
                         for disposable, res in zip(self._disposables, results, strict=True)
                         if not isinstance(res, BaseException)
                     ],
@@ -106,9 +117,10 @@ class Disposables:
         exc_val: BaseException | None,
         exc_tb: TracebackType | None,
     ) -> None:
-        results: list[bool | BaseException | None] = await gather(
+        disposing: Future[list[bool | BaseException | None]] = gather(
             *[
-                disposable.__aexit__(
+                self._dispose(
+                    disposable,
                     exc_type,
                     exc_val,
                     exc_tb,
@@ -117,6 +129,14 @@ class Disposables:
             ],
             return_exceptions=True,
         )
+        try:
+            results: list[bool | BaseException | None] = await shield(disposing)
+
+        except CancelledError:
+            # cancelled when disposing (or just before) - cancelling it as well could prevent
+            # disposables from being exited at all, let those complete and then propagate
+            await disposing
+            raise
 
         exceptions: list[BaseException] = [exc for exc in results if isinstance(exc, BaseException)]
 
